@@ -240,6 +240,11 @@ func inferLiteral(n Node) {
 	switch n.(type) {
 	case *ArrayLiteral, *MapLiteral:
 		n.(inferrer).infer()
+	case *SliceExpression, *BinaryExpression:
+		// a slice, concatenation or repetition of such literals is converted like a literal
+		if t := n.Type(); t != nil && t.Name == ARRAY && t != EMPTY_ARRAY && !t.infer().Equals(t) {
+			wrapAny(n, t.infer())
+		}
 	}
 }
 
